@@ -72,23 +72,7 @@ func ReadFromSRT(i io.Reader) (o *Subtitles, err error) {
 			}
 
 			// Remove trailing empty lines
-			if len(s.Lines) > 0 {
-				for i := len(s.Lines) - 1; i >= 0; i-- {
-					if len(s.Lines[i].Items) > 0 {
-						for j := len(s.Lines[i].Items) - 1; j >= 0; j-- {
-							if len(s.Lines[i].Items[j].Text) == 0 {
-								s.Lines[i].Items = s.Lines[i].Items[:j]
-							} else {
-								break
-							}
-						}
-						if len(s.Lines[i].Items) == 0 {
-							s.Lines = s.Lines[:i]
-						}
-
-					}
-				}
-			}
+			removeTrailingEmptyLinesSRT(s)
 
 			// Init subtitle
 			s = &Item{}
@@ -131,12 +115,36 @@ func ReadFromSRT(i io.Reader) (o *Subtitles, err error) {
 		}
 	}
 
+	// Remove trailing empty lines of the last subtitle
+	removeTrailingEmptyLinesSRT(s)
+
 	// Scanning failed
 	if err = scanner.Err(); err != nil {
 		err = fmt.Errorf("astisub: scanning failed: %w", err)
 		return
 	}
 	return
+}
+
+// removeTrailingEmptyLinesSRT removes the empty lines at the end of a subtitle
+func removeTrailingEmptyLinesSRT(s *Item) {
+	if len(s.Lines) > 0 {
+		for i := len(s.Lines) - 1; i >= 0; i-- {
+			if len(s.Lines[i].Items) > 0 {
+				for j := len(s.Lines[i].Items) - 1; j >= 0; j-- {
+					if len(s.Lines[i].Items[j].Text) == 0 {
+						s.Lines[i].Items = s.Lines[i].Items[:j]
+					} else {
+						break
+					}
+				}
+				if len(s.Lines[i].Items) == 0 {
+					s.Lines = s.Lines[:i]
+				}
+
+			}
+		}
+	}
 }
 
 // parseTextSrt parses the input line to fill the Line
